@@ -345,6 +345,47 @@ def run(ctx):
         t = S.run(body("_standard_to_uniform").node, {"xi": xi, "a_min": amin, "scale": scale})
         return S.same(t, amin + scale * Phi(xi)), f"{t}"
     decide("R30.1", f"{SD}::_standard_to_uniform is a_min + scale*Phi(xi)", uni_fwd, sd.functions.get("_standard_to_uniform"))
+    # the (0, 1) shortcut of uniform_prior returns the bare cdf: only legal when a_min == 0 and a_max == 1 are both known
+    up = sd.functions.get("uniform_prior")
+    if up is not None:
+        from ..util import cfg_of, known_atoms
+        cfgu = cfg_of(up)
+        pa, pb = up.params()[:2]
+        short_rets = [n for n in cfgu.nodes if n.kind == "stmt" and isinstance(n.ast, ast.Return) and "_standard_to_uniform" not in src(n.ast.value)]
+        for n in short_rets:
+            at = [(src(t).replace(" ", ""), pol) for t, pol in known_atoms(cfgu, n.id)]
+            has_min = any(pol and s_ in (f"{pa}==0.0", f"{pa}==0", f"0.0=={pa}") for s_, pol in at)
+            has_max = any(pol and s_ in (f"{pb}==1.0", f"{pb}==1", f"1.0=={pb}") for s_, pol in at)
+            ctx.check("R30.1", f"{SD}::uniform_prior returns the bare normal cdf only for the unit interval [0, 1]", has_min and has_max,
+                      f"guards {[('' if p_ else 'not ') + s_ for s_, p_ in at]}" + ("" if has_min and has_max else
+                                                                                     f": the offset `{pa}` is dropped for intervals that merely have unit width"), up, n.ast)
+    # the model classes of nifty.re.prior forward every constructor parameter to the functional constructor of the same name
+    pr = m.module(PR)
+    for cname, fname in (("LaplacePrior", "laplace_prior"), ("NormalPrior", "normal_prior"), ("LogNormalPrior", "lognormal_prior"),
+                         ("UniformPrior", "uniform_prior"), ("InvGammaPrior", "invgamma_prior")):
+        C = m.cls(PR, cname)
+        ini = C.methods.get("__init__")
+        fn_ = sd.functions.get(fname)
+        key = f"{C.key}::forwards all of its parameters to {fname}"
+        if ini is None or fn_ is None:
+            ctx.und("R30.1", key, "constructor or function missing", C)
+            continue
+        ctx.saw_func(ini)
+        own = [p_ for p_ in ini.params()[1:] if p_ not in ("kwargs",)]
+        calls = [c for c in ast.walk(ini.node) if isinstance(c, ast.Call) and call_name(c) == fname]
+        if len(calls) != 1:
+            ctx.und("R30.1", key, f"{len(calls)} calls of {fname}", ini)
+            continue
+        fparams = fn_.params()
+        bound = {}
+        for i_, a_ in enumerate(calls[0].args):
+            if i_ < len(fparams):
+                bound[fparams[i_]] = src(a_)
+        for k_ in calls[0].keywords:
+            if k_.arg:
+                bound[k_.arg] = src(k_.value)
+        missing = [p_ for p_ in own if p_ in fparams and bound.get(p_) not in (p_, f"self.{p_}")]
+        ctx.check("R30.1", key, not missing, f"{src(calls[0])}" + (f": parameter(s) {missing} are not handed on (the transform silently uses the default)" if missing else ""), ini, calls[0])
     # ---------------------------------------------------------------- laplace
     alpha = pos("alpha")
 
